@@ -39,6 +39,8 @@ func HInts(xs []int) string { return "" }
 func HErr(e error) string { return "" }
 func HFn(f func(int) int) string { return "" }
 func HIntP(p *int) string { return "" }
+func HSumIs(want int, xs ...int) bool { return false }
+func HCountIs(n int, xs ...interface{}) bool { return false }
 `
 
 type mapImporter struct {
